@@ -136,3 +136,17 @@ def elem_ident_list(cx, base: str, length, cls: str, extra: Optional[Callable] =
     l.elem = elem
     l.ghost["ident"] = cx.const(base + "_listid", z3.IntSort())
     return l
+
+
+def unknown_fields(cx, obj):
+    """attributes of a pre-existing object that the contract does not describe: they may hold anything (a
+    pre-existing value or None); reads return such a value, so code that starts to rely on a new attribute is
+    explored instead of being declared out of reach"""
+    def lazy(attr, cx=cx):
+        if attr.startswith("__"):
+            return None
+        o = cx.opaque("unknown-field", base="field_" + attr, maybe_none=cx.bool(attr + "_is_none").term)
+        o.fresh = False
+        return o
+    obj.lazy = lazy
+    return obj
